@@ -60,7 +60,7 @@ func ZZ_C13_H1() {
 	}
 	c := newConn(nc, defaultMallocSize).(*Conn)
 	cursor := 0
-	var peeks []zzPeek
+	var peeks, copies []zzPeek
 	k := zz.Param("K", 3)
 	allOK := true
 	lenOK := true
@@ -99,6 +99,7 @@ func ZZ_C13_H1() {
 			if err != nil || !bytes.Equal(p, wire[cursor:cursor+n]) {
 				allOK = false
 			}
+			copies = append(copies, zzPeek{p, cursor}) // a "read copy": the caller's own, for good
 			cursor += n
 		case 4:
 			n := zzSize("read")
@@ -142,8 +143,25 @@ func ZZ_C13_H1() {
 	if c.Len() != nc.Pos-cursor {
 		lenOK = false
 	}
+	// one more allocation of every pooled size class, so that a block handed back too early is re-issued
+	c.Release() //nolint:errcheck
+	for _, n := range []int{2000, 4097, 8193} {
+		if len(copies) > 0 && cursor+n <= total {
+			q, err := c.Peek(n)
+			if err != nil || !bytes.Equal(q, wire[cursor:cursor+n]) {
+				allOK = false
+			}
+		}
+	}
+	copiesOK := true
+	for _, cp := range copies {
+		if !bytes.Equal(cp.p, wire[cp.at:cp.at+len(cp.p)]) {
+			copiesOK = false
+		}
+	}
 	zz.Cover("reached-assert", true)
 	zz.Cover("crossed-node-boundary", cursor > 4096)
+	zz.Assert("read-copies-stay-the-callers", copiesOK)
 	zz.Assert("bytes-are-the-sent-bytes-in-order", allOK)
 	zz.Assert("len-is-buffered-minus-consumed", lenOK)
 	zz.Assert("peeked-slices-stable-until-release", stable)
